@@ -85,9 +85,10 @@ def apply_fault(f, data: bytes):
         b = bytearray(data)
         b[at], b[at + 1] = b[at + 1], b[at]
         return bytes(b), [at], True
-    if k == "concat":      # the file followed by (a prefix of) itself: a botched append/merge
-        m = min(n, f["n"])
-        return data + data[:m], ([n] if m else []), m > 0
+    if k == "concat":      # the file followed by a slice of itself: a botched append/merge whose
+        a = min(max(0, f.get("from", 0)), n)   # tail looks like further records / runs / pages
+        tail = data[a:a + f["n"]]
+        return data + tail, ([n] if tail else []), len(tail) > 0
     if k == "replace":
         import base64
         return base64.b64decode(f["data_b64"]), [0], True
@@ -174,7 +175,8 @@ def gen_fault(rng, kind, n, offs):
     if kind in ("delete", "swap"):
         return {"kind": kind, "at": _offset(rng, max(0, n - 1), offs)}
     if kind == "concat":
-        return {"kind": kind, "n": rng.choice((1, 16, 51, n, rng.randint(0, max(1, n))))}
+        return {"kind": kind, "n": rng.choice((1, 2, 3, 16, 51, 162, n, rng.randint(0, max(1, n)))),
+                "from": rng.choice((0, 0, _offset(rng, max(0, n - 1), offs)))}
     if kind == "blob":
         return {"kind": kind, "n": rng.choice((0, 1, 2, 5, 17, 19, 51, rng.randint(0, 4096))),
                 "seed": rng.getrandbits(32), "keep": rng.choice((0, 0, 1, 2, 18, 19, 29, 51))}
